@@ -101,6 +101,7 @@ func (s *EternalSource) Run() {
 		if s.IsTerminating() {
 			return
 		}
+		verifPoint("eternal.after_check")
 		s.logger.Info("starting run loop")
 
 		if s.startBackAt != nil {
@@ -113,6 +114,7 @@ func (s *EternalSource) Run() {
 
 		s.logger.Debug("calling sourceFromRefFactory", zap.Stringer("last_processed_block", lastProcessedBlockRef))
 		src := s.sourceFromRefFactory(lastProcessedBlockRef, handler)
+		verifPoint("eternal.after_factory")
 		// assigned under LockedInit: either Shutdown has not started yet and its OnTerminating callback
 		// will see (and stop) this source, or we are already terminating and the source is never run
 		if err := s.LockedInit(func() error {
@@ -122,9 +124,11 @@ func (s *EternalSource) Run() {
 			src.Shutdown(s.Err())
 			return
 		}
+		verifPoint("eternal.after_assign")
 		src.Run()
 
 		<-src.Terminating()
+		verifPoint("eternal.inner_terminated")
 		s.onEternalSourceTermination(src.Err())
 	}
 }
@@ -136,4 +140,5 @@ func (s *EternalSource) onEternalSourceTermination(err error) {
 
 	s.logger.Info("sleeping before restarting underlying source", zap.Duration("wait_time", s.restartDelay))
 	time.Sleep(s.restartDelay)
+	verifPoint("eternal.after_sleep")
 }
